@@ -789,6 +789,53 @@ def mw_default_scale_stream(ctx, count, n_range=(400, 3000)):
                           {"what": "default-scale-spec", "detector": "MovingWindow"})
 
 
+def gcov_many_columns_stream(ctx, name, make, count=2, scores_invariant=True):
+    """MANY columns with the multivariate Gaussian cost, in another unit: with 40 columns the determinant of a sample covariance leaves the binary64 range (1e-4 ^ 80, 1e4 ^ 80)
+    although its logarithm is an ordinary number.  make() builds the detector around GaussianCovCost.  The detector must run, find the planted change in every unit, and -- the
+    change / local anomaly scores being invariant under a common rescaling of the data -- publish the same scores (up to rounding) as on the unit-scale series."""
+    rng = ctx.rng
+    for it in range(count):
+        n, p = rng.randint(170, 200), 40
+        c = rng.randint(70, n - 70)
+        base = np.asarray([[rng.gauss(0, 1) for _ in range(p)] for _ in range(n)])
+        base[c:] += 3.0
+        ref = None
+        for unit in (1.0, 1e-4, 1e4):
+            Xn = base * unit
+            inp = {"detector": name, "n": n, "p": p, "unit": unit, "planted_change": c, "seed_note": "40 gaussian columns, level shift of 3 sd in every column"}
+            ctx.case({"gcov-wide": name, "it": it, "unit": unit}, nontrivial=True)
+            ctx.count("many_columns_unit", str(unit))
+            try:
+                d = make().fit(pd.DataFrame(Xn))
+                y = d.predict(pd.DataFrame(Xn))
+                try:
+                    sc = np.asarray(d.transform_scores(pd.DataFrame(Xn)).to_numpy(), dtype=float).reshape(-1)
+                except NotImplementedError:
+                    t = d.scores
+                    sc = np.asarray(t["score"] if isinstance(t, pd.DataFrame) and "score" in t else t, dtype=float).reshape(-1)
+            except Exception as ex:
+                ctx.violation(f"{name} on a {n} x {p} series in the unit {unit}: raised {type(ex).__name__}: {str(ex)[:120]} (the same series in the unit 1 runs)", inp,
+                              {"what": "many-columns-exception", "detector": name})
+                break
+            if "icolumns" in y or (len(y) and isinstance(y["ilocs"].iloc[0], pd.Interval)):
+                det = [(int(l), int(r)) for l, r in zip(y["ilocs"].array.left, y["ilocs"].array.right)]
+            else:
+                det = [int(v) for v in y["ilocs"]]
+            if ref is None:
+                ref = (det, sc)
+                continue
+            if det != ref[0]:
+                ctx.violation(f"{name} on a {n} x {p} series: detections {det} in the unit {unit}, {ref[0]} in the unit 1 (planted change at {c})", dict(inp, unit1=ref[0], got=det),
+                              {"what": "many-columns-unit", "detector": name})
+                break
+            fin = np.isfinite(ref[1])
+            if scores_invariant and (sc.shape != ref[1].shape or not np.array_equal(np.isfinite(sc), fin)
+                                     or not np.allclose(sc[fin], ref[1][fin], rtol=1e-6, atol=1e-6 * (1.0 + float(np.max(np.abs(ref[1][fin]), initial=0.0))))):
+                ctx.violation(f"{name} on a {n} x {p} series: the published scores in the unit {unit} differ from those in the unit 1 (first entries {sc[:3].tolist()} vs "
+                              f"{ref[1][:3].tolist()}) although the score is invariant under a common rescaling", inp, {"what": "many-columns-unit-scores", "detector": name})
+                break
+
+
 def sbs_default_scale_stream(ctx, count, n_range=(300, 1200)):
     from skchange.change_detectors import SeededBinarySegmentation
     from skchange.change_scores import CUSUM
